@@ -206,7 +206,31 @@ class World:
         return "ok:-"
 
 
+IMPORTABLE = ["networkx", "scipy.linalg", "scipy.stats", "sempler.plot", "decimal", "fractions", "pandas",
+              "numpy.ma", "multiprocessing"]
+
+
+def op_py_import(self, rec):
+    """The application imports another module in mid-session (what is loaded is process state too)."""
+    import importlib
+    import sys
+    name = rec["module"]
+    fresh = name not in sys.modules
+    try:
+        with contextlib.redirect_stdout(io.StringIO()):
+            importlib.import_module(name)
+    except Exception:
+        pass
+    self.faults["import"] += 1
+    if fresh and name in sys.modules:
+        self.probes["import.module_loaded_in_mid_session"] += 1
+    return "ok:-"
+
+
+World.op_py_import = op_py_import
+
 SHARED_OPS = {
+    "py.import": World.op_py_import,
     "np.perturb": World.op_np_perturb,
     "py.random": World.op_py_random,
     "entropy.draw": World.op_entropy_draw,
